@@ -20,10 +20,13 @@ func init() {
 	register(&Rule{ID: "E-PRUNE", Props: []string{"C01", "C17"}, Floor: 3,
 		Doc: "every projection producer (projectArray, filterAndProjectArray, flattenAndProjectArray, projectObject, objectValues, filter, flatten, pruneArray) adds an element to its result only under a dominating test that the element is not null",
 		Run: ruleEPrune})
+	register(&Rule{ID: "E-EXHAUST", Props: []string{"C01", "C15", "C17"}, Floor: 6,
+		Doc: "by interpretation of every projection producer: on every path that returns a result, every array whose length the path looked at has a length the path determined and every map iteration was run until exhausted (no loop over the subject is left early)",
+		Run: ruleEExhaust})
 	register(&Rule{ID: "E-SELECTOR-NULL", Props: []string{"C01"}, Floor: 3,
 		Doc: "selectors and projection helpers return null (and no error) when their subject has the wrong type: the failure edge of the container assertion returns the nil constant",
 		Run: ruleESelectorNull})
-	register(&Rule{ID: "E-EQUALITY", Props: []string{"C20", "C09"}, Floor: 1,
+	register(&Rule{ID: "E-EQUALITY", Props: []string{"C20", "C09", "C01"}, Floor: 1,
 		Doc: "!= is the negation of the same equality helper as ==; contains tests membership with that helper; in equal the array and object loops are dominated by a length-equality test, the object loop tests key presence with a comma-ok lookup before comparing values, and different JSON types never compare equal by falling through",
 		Run: ruleEEquality})
 	register(&Rule{ID: "E-TRUTHY", Props: []string{"C20", "C14"}, Floor: 6,
@@ -993,10 +996,33 @@ func ruleEEquality(p *Program, r *Reporter) {
 		r.Bad(contains.Pos(), "contains uses equal", "contains does not decide array membership with the equality helper of ==")
 	}
 	// equal: recursive calls inside loops must be dominated by a len(x) != len(y) exit; map loop must use comma-ok lookup
-	loops := loopsOf(equal)
+	// the loops of equal itself and of the helpers it shares its recursion with (functions equal calls that call it back)
+	type eqLoop struct {
+		h    *ssa.BasicBlock
+		body map[*ssa.BasicBlock]bool
+	}
+	var all []eqLoop
+	eqFns := []*ssa.Function{equal}
+	for _, c := range staticCallees(equal) {
+		if c == equal || !p.IsRepo(c) {
+			continue
+		}
+		for _, cc := range staticCallees(c) {
+			if cc == equal {
+				eqFns = append(eqFns, c)
+				break
+			}
+		}
+	}
+	for _, f := range eqFns {
+		for h, body := range loopsOf(f) {
+			all = append(all, eqLoop{h, body})
+		}
+	}
+	sort.Slice(all, func(i, j int) bool { return all[i].h.Parent().Pos() < all[j].h.Parent().Pos() || all[i].h.Parent() == all[j].h.Parent() && all[i].h.Index < all[j].h.Index })
 	nrec := 0
-	for h, body := range loops {
-		_ = h
+	for _, lp := range all {
+		h, body := lp.h, lp.body
 		isMapLoop := false
 		for _, in := range h.Instrs {
 			if nx, ok := in.(*ssa.Next); ok {
@@ -1629,9 +1655,8 @@ func ruleETies(p *Program, r *Reporter) {
 					}
 				}
 			}
-			if !found {
-				continue
-			}
+			// a path that never compared the keys by the three-way comparison knows nothing about their order
+			_ = found
 			checked++
 			s := job.sign
 			strictlyBetter := (s > 0 && lo >= 1) || (s < 0 && hi <= -1)
@@ -1650,6 +1675,90 @@ func ruleETies(p *Program, r *Reporter) {
 			r.Unknown(fn.Pos(), key, "no path over two elements compares their keys")
 		default:
 			r.OK(fn.Pos(), key, fmt.Sprintf("%d paths over two elements: the later element wins exactly under a strict comparison of the keys", checked))
+		}
+	}
+}
+
+// ---------------------------------------------------------------- E-EXHAUST
+
+// ruleEExhaust: a projection applies its right-hand side to every element of its subject. By interpretation of each
+// projection producer: on every path that returns a result (no error), every array whose length the path looked at has
+// a length the path determined (the loop over it ran to its end), and every map iterator the path advanced was advanced
+// until it was exhausted. A loop that is left early (break for continue, a return from inside the loop) leaves the
+// length open or the iterator unexhausted on the path that returns.
+func ruleEExhaust(p *Program, r *Reporter) {
+	d := newValDom(p)
+	if d.why != "" {
+		r.Unknown(token.NoPos, "producers", d.why)
+		return
+	}
+	for _, name := range pruneProducers {
+		fn := producerFunc(p, name)
+		if fn == nil {
+			r.Unknown(token.NoPos, "evaluator."+name, "projection producer not found")
+			continue
+		}
+		key := "evaluator." + name + " enumerates its subject"
+		vr, why := d.run(fn, 3, nil)
+		if why != "" {
+			r.Unknown(fn.Pos(), key, why)
+			continue
+		}
+		paths, lens, iters := 0, 0, 0
+		var bad string
+		var badPos token.Pos
+		for _, o := range vr.outs {
+			if o.Cut || o.Panic || o.Ret == nil || len(o.Res) == 0 {
+				continue
+			}
+			if vr.errIdx >= 0 && vr.errIdx < len(o.Res) && !isDefNil(o.Res[vr.errIdx]) {
+				continue
+			}
+			paths++
+			var names []string
+			for k := range o.St.named {
+				if strings.HasPrefix(k, "len(") && !strings.HasPrefix(k, "len(asserted:map[") {
+					names = append(names, k)
+				}
+			}
+			sort.Strings(names)
+			for _, k := range names {
+				f := o.St.ints[o.St.named[k]]
+				if f == nil {
+					continue
+				}
+				lens++
+				if f.lo != f.hi && bad == "" {
+					bad = fmt.Sprintf("%s: returns a result while %s is only known to be at least %d: the loop over that array was left before its end", p.Fset.Position(o.Ret.Pos()), strings.TrimSuffix(k, "#0"), f.lo)
+					badPos = o.Ret.Pos()
+				}
+			}
+			last := map[int]bool{}
+			var order []int
+			for _, c := range o.St.Conds {
+				if sy, ok := c.V.(avSym); ok && sy.tag == "next-ok" {
+					it, _ := sy.payload.(avSym)
+					if _, seen := last[it.id]; !seen {
+						order = append(order, it.id)
+					}
+					last[it.id] = c.Truth
+				}
+			}
+			for _, id := range order {
+				iters++
+				if last[id] && bad == "" {
+					bad = fmt.Sprintf("%s: returns a result while the iteration over a map was left before it was exhausted", p.Fset.Position(o.Ret.Pos()))
+					badPos = o.Ret.Pos()
+				}
+			}
+		}
+		switch {
+		case bad != "":
+			r.Bad(badPos, key, "not every element of the subject reaches the result: "+bad)
+		case lens+iters == 0:
+			r.Unknown(fn.Pos(), key, fmt.Sprintf("no path of the producer enumerates an array or a map (%d paths)", paths))
+		default:
+			r.OK(fn.Pos(), key, fmt.Sprintf("%d result paths: %d array lengths determined by the path, %d map iterations run to exhaustion", paths, lens, iters))
 		}
 	}
 }
